@@ -104,6 +104,17 @@ def generate(rng, tier):
         rng.shuffle(bs)
         for q in [(F(x), F(y), F(x), F(y)), (F(0), F(0), F(10), F(10)), (F(x) - 1, F(y) - 1, F(x), F(y))]:
             cases.append({"boxes": bs, "q": q, "exact": False, "family": "float/identical-point-boxes"})
+    # dense stacks: 31 .. 130 boxes that all contain one common point (dense hatching across a shape, nested frames), so that no split
+    # separates them and they all sit in one node of the tree, in no particular order; queries at every kind of position across them
+    for _ in range(max(6, nl // 12)):
+        m = rng.choice([31, 32, 33, 40, 64, 130]); cx, cy = F(rng.randint(-20, 20)), F(rng.randint(-20, 20))
+        bs = [(i, (cx - rng.randint(0, 60), cy - rng.randint(0, 9), cx + rng.randint(0, 60), cy + rng.randint(0, 9))) for i in range(m)]
+        rng.shuffle(bs)
+        if rng.random() < 0.4: bs += [(m + j, (cx + 100 + j, cy + 50, cx + 101 + j, cy + 51)) for j in range(rng.randint(1, 4))]
+        for _ in range(nq):
+            x = cx + rng.randint(-62, 62); y = cy + rng.randint(-10, 10)
+            q = rng.choice([(x, y, x, y), (x, cy, x + rng.randint(0, 5), cy), (cx - 70, y, x, y + 1), (x, cy - 20, cx + 70, cy + 20)])
+            cases.append({"boxes": bs, "q": q, "exact": rng.random() < 0.6, "family": "dense-stack/%d-boxes-around-one-point" % m})
     # an index is built once and queried many times: 1-4 earlier queries on the same index (whole extent, halves and quadrants of the
     # extent, single boxes; the caller keeps and edits the sets it was given) must not change the answer to the judged query
     for _ in range(nl):
